@@ -413,6 +413,50 @@ def check(run):
     same = n1 == n2 == 3
     run.check(same, 'D3', 'Cell.order' if not same else 'order-no-leak', f'order() of a 3-cell tree returns {n1} then {n2} entries after ordering another tree in between', prog.where(prog.method('Cell', 'order')))
 
+    # end_cell() is a snapshot of the builder as it is now, also after its content was REPLACED through the public setters by content of
+    # the same size (a remembered cell judged "still valid" by the amount of bits and references would be the old content)
+    it = Interp(prog)
+    try:
+        b = builder(it)
+        call(it, b, 'store_uint', K(0xA5), K(8))
+        kid_a, kid_b = cm.new_cell(it, cm.tvm_bits(it, BA([Seg(4, 'k', '1010')])), []), cm.new_cell(it, cm.tvm_bits(it, BA([Seg(4, 'k', '0101')])), [])
+        call(it, b, 'store_ref', kid_a)
+        first = call(it, b, 'end_cell')
+        it.setattr(b, 'bits', cm.tvm_bits(it, BA([Seg(8, 'k', '00111100')])))
+        it.setattr(b, 'refs', ListV([kid_b]))
+        second = call(it, b, 'end_cell')
+        viaslice = call(it, b, 'to_slice')
+        s2 = snap(it, second)
+        good = s2[0] == BA([Seg(8, 'k', '00111100')]).desc() and s2[1] == (id(kid_b),) and snap_slice(it, viaslice)[0] == s2[0]
+        why = (f'builder content replaced through the bits / refs setters (same sizes) after a first end_cell(): the second end_cell() holds '
+               f'{s2[0]} over {"the new" if s2[1] == (id(kid_b),) else "the OLD"} reference' + ('' if good else ' - not the content of the builder at the time of the call'))
+    except RaiseEx as e:
+        good, why = False, f'raises {e}'
+    run.check(good, 'D3', 'Builder.end_cell[after the content was replaced]' if not good else 'end_cell is a snapshot of the current content', why, prog.where(prog.method('Builder', 'end_cell')))
+    # what order() hands out belongs to the caller: collecting another root into it (the documented use of the parameter), or clearing it,
+    # changes nothing the cell reports or serialises later
+    it = Interp(prog)
+    c, kids = mk_source(it, concrete=True)
+    other, _ = mk_source(it, concrete=True)
+    try:
+        boc0 = vrepr(call(it, c, 'to_boc'))
+        got = call(it, c, 'order')
+        call(it, other, 'order', got)
+        r3 = call(it, c, 'order')
+        n3 = len(r3.d) if isinstance(r3, DictV) else None
+        boc1 = vrepr(call(it, c, 'to_boc'))
+        if isinstance(r3, DictV):
+            it.call(it.getattr(r3, 'clear'), [], {})
+        r4 = call(it, c, 'order')
+        n4 = len(r4.d) if isinstance(r4, DictV) else None
+        boc2 = vrepr(call(it, c, 'to_boc'))
+        same = n3 == 3 and n4 == 3 and boc0 == boc1 == boc2
+        why = (f'a.order() handed to b.order(...): a.order() then has {n3} entries (3 expected), after clearing what it returned {n4}; '
+               f'to_boc() {"unchanged" if boc0 == boc1 == boc2 else "CHANGED"}')
+    except RaiseEx as e:
+        same, why = False, f'after the caller used the dictionary order() returned, order() / to_boc() raise {e}'
+    run.check(same, 'D3', 'Cell.order[result handed out]' if not same else 'order-result-belongs-to-the-caller', why, prog.where(prog.method('Cell', 'order')))
+
     # ================= (2) syntactic effect rules
     nfun = 0
     for f in prog.all_functions():
